@@ -47,6 +47,10 @@ pub fn doc_lib(text: &str) -> HashMap<String, String> {
 pub fn p1(key: &str, text: &str, ext: &str) -> Result<String, PanicInfo> {
     guarded(|| {
         let mut g = Graph::new_with_options(opts(ext));
+        // the same companion note as in `doc_lib`, so that every route sees the same library
+        if key == DOC {
+            g.from_markdown("2".into(), "# two\n", MarkdownReader::new());
+        }
         g.from_markdown(key.into(), text, MarkdownReader::new());
         g.to_markdown(&key.into())
     })
